@@ -504,7 +504,7 @@ func init() {
 			if tier == "thorough" {
 				return 1500
 			}
-			return 48
+			return 96
 		},
 		Run:       c02Run,
 		MustProbe: []string{"foreign_chain_not_yet_valid", "lookalike_own_key_ids", "lookalike_same_key_ids", "root_of_trust_configs", "empty_config_uses_embedded_root", "intel_lookalike_root"},
